@@ -272,8 +272,8 @@ def data_routes():
     a(_r("last-sub", lambda A: obs(f'(xs|last)["{A}"]')))
     a(_r("literal-list", lambda A: obs(f"[o][0].{A}")))
     a(_r("literal-dict", lambda A: obs(f'{{"k": o}}.k.{A}')))
-    a(_r("chain2", lambda A: obs(f"o.{A}.__class__")))
-    a(_r("chain2-sub", lambda A: obs(f'o["{A}"]["__class__"]')))
+    a(_r("chain2", lambda A: obs(f"o.{A}.mark")))
+    a(_r("chain2-sub", lambda A: obs(f'o["{A}"]["mark"]')))
     a(_r("set", lambda A: "{%% set v = o.%s %%}" % A + obs("v")))
     a(_r("set-sub", lambda A: '{%% set v = o["%s"] %%}' % A + obs("v")))
     a(_r("set-tuple", lambda A: "{%% set v, w = o.%s, o|attr('%s') %%}" % (A, A) + obs("v") + obs("w")))
@@ -371,7 +371,7 @@ def data_routes():
         ("fconv", "{0.@A!r}{0.@A!s}", ".format(o)"),
         ("fspec", "{0:{1.@A}}", ".format(1, o)"),
         ("fauto", "{.@A}{[@A]}", ".format(o, o)"),
-        ("fchain", "{0.@A.__class__}", ".format(o)"),
+        ("fchain", "{0.@A.mark}", ".format(o)"),
         ("fstar", "{0.@A}", ".format(*xs)"),
         ("fkw", "{a.@A}", ".format(**d)"),
     ]
